@@ -118,6 +118,24 @@ def gen_cases(rng, tier):
         proto = build_proto(rng, rng.choice(subsets))
         pts = gen_point_seq(rng, proto, "random", rng.range(1, 6), nan=True)
         cases.append(("nan:random", [("NEW", "g"), ("PC", "pc", proto)] + [("PT", p) for p in pts] + [("PFIN",), ("PDROP",), ("FIN",)]))
+    # rejected points whose bounded attributes are more extreme than every accepted point: the bounds are
+    # those of the points added, a rejected call leaves no trace (the offending value comes last, or first)
+    for g in subsets:
+        for bad_last in (True, False):
+            proto = [(n, t) for n, t in build_proto(rng, g) if n != "ts"]
+            proto = proto + [("ts", "D")] if bad_last else [("ts", "D")] + proto
+            k_bad = len(proto) - 1 if bad_last else 0
+            pools = [sorted(value_pool(t), key=lambda v, t=t: wapi.to_f64(t, v)) for _, t in proto]
+            mid = [pl[len(pl) // 2] for pl in pools]
+            calls = [("NEW", "g"), ("PC", "pc", proto), ("PT", list(mid))]
+            for pick in (0, -1):
+                q = [pl[pick] for pl in pools]
+                q[k_bad] = rng.choice(["i0", "f00000000", "s1"])
+                calls.append(("PT", q))
+                if rng.chance(1, 2):
+                    calls.append(("PT", q[:-1]))
+            calls += [("PT", list(mid)), ("PFIN",), ("PDROP",), ("FIN",)]
+            cases.append(("%s:rejected-extreme" % "+".join(g), calls))
     # duplicate attribute names, several clouds per file, rejected points in between, limit overrides
     for _ in range(40 if tier == "quick" else 600):
         calls = [("NEW", "g")]
@@ -190,7 +208,7 @@ def run(rep, tier, rng, replay=None):
     rep.cov["rule"] = ("every subset of the attribute groups {Cartesian, spherical, row/column, return, colour, intensity} that contains coordinates (48) x point patterns "
                        "{empty, single, constant, random, extremes of different axes at different positions}; attribute types over single, double, integer and scaled integer "
                        "(scales negative, zero, tiny, huge; offsets negative, -0, -inf; ranges up to the full i64 range and beyond 2^53); values from pools of extremes "
-                       "(+-0, denormals, +-max, +-inf, range ends); plus NaN data, duplicate attribute names, several clouds per file, rejected points in between, complete and "
+                       "(+-0, denormals, +-max, +-inf, range ends); plus rejected points more extreme than every accepted one, NaN data, duplicate attribute names, several clouds per file, rejected points in between, complete and "
                        "incomplete limit overrides. Direct oracle: bounds read back through the real reader equal min/max computed independently over the accepted points "
                        "(as real values; present exactly for the groups of the prototype; absent fields for empty clouds), every point within them, limits = declared range of "
                        "the attribute type or the complete override. Correspondence: device bytes, results, and the reader's bounds/limits/prototype/points against the extracted "
